@@ -83,5 +83,6 @@ bool ops_c18(Ctx &c, Toks const &t);
 bool ops_c15(Ctx &c, Toks const &t);
 bool ops_c11(Ctx &c, Toks const &t);
 bool ops_bias(Ctx &c, Toks const &t);
+bool ops_c13(Ctx &c, Toks const &t);
 
 #endif
